@@ -525,10 +525,31 @@ Proof. exists (mkcfg (-5) 0x1.999999999999ap+0%float 0x1.999999999999ap-3%float 
 
 (* ---------- pacing ---------- *)
 
-(* a failed attempt at time [now s] arms the timer Backoff(backoffIdx) later *)
-Lemma dial_fail : forall c s, okmode s = false ->
-  dial c s = mkp (now s) false (idx s) (PBackoff (now s + bo c (idx s))).
-Proof. intros c s H. unfold dial. rewrite H. reflexivity. Qed.
+(* an attempt that fails at once at time [now s] arms the timer Backoff(backoffIdx) later *)
+Lemma dial_fail : forall c s, okmode s = false -> fdelay s <= 0 ->
+  dial c s = mkp (now s) false (idx s) (PBackoff (now s + bo c (idx s))) (fdelay s) true.
+Proof.
+  intros c s H Hd. unfold dial. rewrite H.
+  replace (fdelay s <=? 0) with true by (symmetry; apply Z.leb_le; exact Hd). reflexivity.
+Qed.
+
+(* an attempt that takes a while to fail: backoffFor is fixed at its start ... *)
+Lemma dial_fail_slow : forall c s, okmode s = false -> 0 < fdelay s ->
+  ph (dial c s) = PConnecting (now s + fail_after c (idx s) (fdelay s)) (bo c (idx s)).
+Proof.
+  intros c s H Hd. unfold dial. rewrite H.
+  replace (fdelay s <=? 0) with false by (symmetry; apply Z.leb_gt; exact Hd). reflexivity.
+Qed.
+
+(* ... and the wait of the full backoffFor starts when the attempt fails (time t), not
+   when it started: passing time over t continues from PBackoff (t + b) at time t *)
+Lemma advance_slow_failure : forall fuel c target s t b, ph s = PConnecting t b -> t <= target ->
+  advance (S fuel) c target s =
+  advance fuel c target (mkp t (okmode s) (idx s) (PBackoff (t + b)) (fdelay s) true).
+Proof.
+  intros fuel c target s t b H Ht. cbn [advance]. rewrite H.
+  replace (t <=? target) with true by (symmetry; apply Z.leb_le; exact Ht). reflexivity.
+Qed.
 
 (* a successful attempt resets the index *)
 Lemma dial_success : forall c s, okmode s = true -> idx (dial c s) = 0 /\ ph (dial c s) = PReady.
@@ -536,7 +557,7 @@ Proof. intros c s H. unfold dial. rewrite H. split; reflexivity. Qed.
 
 (* while the timer has not expired nothing is dialled and the wait stays armed *)
 Lemma advance_waits : forall fuel c target s t, ph s = PBackoff t -> target < t ->
-  advance fuel c target s = Some (mkp target (okmode s) (idx s) (PBackoff t), []).
+  advance fuel c target s = Some (mkp target (okmode s) (idx s) (PBackoff t) (fdelay s) (sticky s), []).
 Proof.
   intros fuel c target s t H Ht. destruct fuel; cbn [advance]; rewrite H;
   replace (t <=? target) with false by (symmetry; apply Z.leb_gt; exact Ht); reflexivity.
@@ -545,49 +566,76 @@ Qed.
 (* ---------- the pacing monitor accepts every model trace ---------- *)
 
 Definition Inv (c : config) (s : pstate) (m : mon) : Prop :=
-  m_ok m = okmode s /\ m_idx m = idx s /\ (m_fresh m = true -> m_idx m = 0) /\
+  (m_ok m = okmode s) /\ (m_idx m = idx s) /\ (m_fresh m = true -> m_idx m = 0) /\
+  (m_delay m = fdelay s) /\
   match ph s with
   | PBackoff T => exists t0, m_last m = Some t0 /\ T = t0 + bo c (m_idx m) /\ t0 <= now s
+  | PConnecting T B => m_last m = Some T /\ B = bo c (m_idx m)
   | _ => m_last m = None
   end.
+
+(* the monitor after a dial at time t made with index i (the model's [dial]) *)
+Definition mon_after (c : config) (m : mon) (i : Z) (fresh : bool) (t : Z) : mon :=
+  if m_ok m then mkm (m_ok m) 0 None true (m_dials m + 1) (m_delay m)
+  else mkm (m_ok m) i
+           (Some (if m_delay m <=? 0 then t else t + fail_after c i (m_delay m)))
+           fresh (m_dials m + 1) (m_delay m).
+
+Lemma dial_Inv : forall c m i fresh t ok fd st,
+  m_ok m = ok -> m_delay m = fd -> (fresh = true -> i = 0) ->
+  Inv c (dial c (mkp t ok i PIdle fd st)) (mon_after c m i fresh t).
+Proof.
+  intros c m i fresh t ok fd st Hok Hfd Hfr. unfold dial, mon_after. cbn [okmode now idx fdelay sticky].
+  rewrite Hok, Hfd. destruct ok.
+  - unfold Inv. cbn. repeat split; auto.
+  - destruct (fd <=? 0) eqn:E; unfold Inv; cbn.
+    + repeat split; auto. exists t. repeat split; auto. lia.
+    + repeat split; auto.
+Qed.
+
+Lemma dial_now : forall c s, now (dial c s) = now s.
+Proof. intros c s. unfold dial. destruct (okmode s); [reflexivity|]. destruct (fdelay s <=? 0); reflexivity. Qed.
 
 Lemma advance_sim : forall fuel c target s m s' ds,
   Inv c s m -> now s <= target -> advance fuel c target s = Some (s', ds) ->
   exists m', mon_dials c m false ds = (m', true, true) /\ Inv c s' m'.
 Proof.
-  induction fuel as [|f IH]; intros c target s m s' ds (I1 & I2 & I3 & I4) Hn Ha; cbn [advance] in Ha.
-  - destruct (ph s) as [|t|] eqn:P.
-    + injection Ha as <- <-. exists m. split. reflexivity. unfold Inv. cbn. rewrite ?P. auto.
+  induction fuel as [|f IH]; intros c target s m s' ds (I1 & I2 & I3 & I5 & I4) Hn Ha; cbn [advance] in Ha.
+  - destruct (ph s) as [|t b|t|] eqn:P.
+    + injection Ha as <- <-. exists m. split. reflexivity. unfold Inv. cbn. rewrite ?P. repeat split; auto.
+    + destruct (t <=? target) eqn:E; [discriminate Ha|]. injection Ha as <- <-. exists m. split. reflexivity.
+      unfold Inv. cbn. rewrite ?P. repeat split; auto; apply I4.
     + destruct (t <=? target) eqn:E; [discriminate Ha|]. injection Ha as <- <-. exists m. split. reflexivity.
       unfold Inv. cbn. rewrite ?P. destruct I4 as (t0 & L & T & N). repeat split; auto. exists t0. repeat split; auto. lia.
-    + injection Ha as <- <-. exists m. split. reflexivity. unfold Inv. cbn. rewrite ?P. auto.
-  - destruct (ph s) as [|t|] eqn:P.
-    + injection Ha as <- <-. exists m. split. reflexivity. unfold Inv. cbn. rewrite ?P. auto.
+    + injection Ha as <- <-. exists m. split. reflexivity. unfold Inv. cbn. rewrite ?P. repeat split; auto.
+  - destruct (ph s) as [|t b|t|] eqn:P.
+    + injection Ha as <- <-. exists m. split. reflexivity. unfold Inv. cbn. rewrite ?P. repeat split; auto.
+    + (* a slow dial fails at t: the timer is armed from t *)
+      destruct I4 as [L B].
+      destruct (t <=? target) eqn:E.
+      * apply Z.leb_le in E.
+        refine (IH c target _ m s' ds _ _ Ha); [|cbn; exact E].
+        unfold Inv. cbn. repeat split; auto. exists t. repeat split; auto; try lia. all: try (rewrite B; reflexivity).
+      * injection Ha as <- <-. exists m. split. reflexivity. unfold Inv. cbn. rewrite ?P. repeat split; auto.
     + destruct I4 as (t0 & L & T & N).
       destruct (t <=? target) eqn:E.
       * apply Z.leb_le in E.
-        destruct (advance f c target (dial c (mkp t (okmode s) (idx s + 1) PIdle))) as [[s2 ds2]|] eqn:E2; [|discriminate Ha].
+        destruct (advance f c target (dial c (mkp t (okmode s) (idx s + 1) PIdle (fdelay s) (sticky s)))) as [[s2 ds2]|] eqn:E2; [|discriminate Ha].
         injection Ha as <- <-.
-        set (m1 := if m_ok m then mkm (m_ok m) 0 None true (m_dials m + 1)
-                   else mkm (m_ok m) (m_idx m + 1) (Some t) false (m_dials m + 1)).
-        assert (Hi : Inv c (dial c (mkp t (okmode s) (idx s + 1) PIdle)) m1).
-        { unfold dial, m1. cbn [okmode now idx]. rewrite I1. destruct (okmode s); unfold Inv; cbn.
-          - repeat split; auto.
-          - repeat split; auto; try lia; try discriminate. exists t. repeat split; auto; try lia. rewrite I2. reflexivity. }
-        assert (Hn1 : now (dial c (mkp t (okmode s) (idx s + 1) PIdle)) <= target).
-        { unfold dial. cbn [okmode now idx]. destruct (okmode s); cbn; exact E. }
-        destruct (IH c target _ m1 s2 ds2 Hi Hn1 E2) as (m' & Hm & Hinv).
+        assert (Hi : Inv c (dial c (mkp t (okmode s) (idx s + 1) PIdle (fdelay s) (sticky s))) (mon_after c m (m_idx m + 1) false t)).
+        { rewrite <- I2. apply dial_Inv; auto. discriminate. }
+        assert (Hn1 : now (dial c (mkp t (okmode s) (idx s + 1) PIdle (fdelay s) (sticky s))) <= target).
+        { rewrite dial_now. cbn. exact E. }
+        destruct (IH c target _ _ s2 ds2 Hi Hn1 E2) as (m' & Hm & Hinv).
         exists m'. split; [|exact Hinv].
-        cbn [mon_dials]. rewrite L. cbn [negb andb]. fold m1.
+        cbn [mon_dials]. rewrite L. cbn [negb andb].
         replace (t0 + bo c (m_idx m) <=? t) with true by (symmetry; apply Z.leb_le; lia).
         replace (if m_fresh m then t <=? t0 + bo c 0 else true) with true.
         2: { destruct (m_fresh m) eqn:Fr; [|reflexivity]. rewrite (I3 eq_refl) in T. symmetry. apply Z.leb_le. lia. }
-        replace (if m_ok m then mkm (m_ok m) 0 None true (m_dials m + 1)
-                 else mkm (m_ok m) (m_idx m + 1) (Some t) false (m_dials m + 1)) with m1 by reflexivity.
-        rewrite Hm. reflexivity.
+        unfold mon_after in Hm. rewrite Hm. reflexivity.
       * injection Ha as <- <-. exists m. split. reflexivity.
         unfold Inv. cbn. rewrite ?P. repeat split; auto. exists t0. repeat split; auto. lia.
-    + injection Ha as <- <-. exists m. split. reflexivity. unfold Inv. cbn. rewrite ?P. auto.
+    + injection Ha as <- <-. exists m. split. reflexivity. unfold Inv. cbn. rewrite ?P. repeat split; auto.
 Qed.
 
 Lemma take_n_app : forall ds r, take_n (length ds) (ds ++ r) = Some (ds, r).
@@ -604,55 +652,55 @@ Qed.
 Lemma pstep_sim : forall c s m op s' o, Inv c s m -> pstep c s op = Some (s', o) ->
   exists m', mon_step c m op o = Some (m', true, true) /\ Inv c s' m'.
 Proof.
-  intros c s m op s' o (I1 & I2 & I3 & I4) Hp. unfold pstep in Hp.
-  destruct op as [|k [|a [|b r]]]; try discriminate Hp.
-  - (* one-element ops *)
-    destruct k as [|k|k]; try discriminate Hp.
-    destruct k as [k|k|]; try discriminate Hp; try (destruct k; discriminate Hp).
-    + destruct k as [k|k|]; try discriminate Hp; try (destruct k; discriminate Hp).
-      destruct k as [k|k|]; try discriminate Hp; try (destruct k; discriminate Hp).
-      (* [5] *)
-      unfold mon_step. destruct (ph s) eqn:P; injection Hp as <- <-; rewrite split_pobs_pobs; cbn [mon_dials];
-        unfold state_code; cbn [ph]; rewrite ?P; cbn [Z.eqb]; (eexists; split; [reflexivity|]);
-        unfold Inv; cbn; rewrite ?P; repeat split; auto.
-    + destruct k as [k|k|]; try discriminate Hp; try (destruct k; discriminate Hp).
-      * destruct k as [k|k|]; try discriminate Hp; try (destruct k; discriminate Hp).
-        (* [6] *)
-        unfold mon_step. destruct (ph s) eqn:P; injection Hp as <- <-; rewrite split_pobs_pobs.
-        -- cbn [mon_dials]. rewrite I4. cbn [negb andb]. unfold dial. rewrite I1.
-           destruct (okmode s); eexists; (split; [reflexivity|]); unfold Inv; cbn; repeat split; auto; try discriminate.
-           exists (now s). repeat split; auto; try lia. rewrite I2. reflexivity.
-        -- cbn [mon_dials]. exists m. split. reflexivity. unfold Inv. rewrite ?P. auto.
-        -- cbn [mon_dials]. exists m. split. reflexivity. unfold Inv. rewrite ?P. auto.
-      * destruct k as [k|k|]; try discriminate Hp; try (destruct k; discriminate Hp).
-        (* [4] *)
-        unfold mon_step. destruct (ph s) as [|t|] eqn:P; injection Hp as <- <-; rewrite split_pobs_pobs.
-        -- cbn [mon_dials]. eexists. split. reflexivity. unfold Inv. cbn. rewrite ?P. repeat split; auto; discriminate.
-        -- destruct I4 as (t0 & L & T & N). cbn [mon_dials m_last m_ok m_idx m_fresh m_dials]. rewrite L. cbn [negb andb].
-           replace (t0 <=? now s) with true by (symmetry; apply Z.leb_le; exact N).
-           unfold dial. cbn [okmode now idx]. rewrite I1.
-           destruct (okmode s); eexists; (split; [reflexivity|]); unfold Inv; cbn; repeat split; auto; try discriminate.
-           exists (now s). repeat split; auto; lia.
-        -- cbn [mon_dials]. eexists. split. reflexivity. unfold Inv. cbn. rewrite ?P. repeat split; auto; discriminate.
-  - (* two-element ops *)
-    destruct k as [|k|k]; try discriminate Hp.
-    destruct k as [k|k|]; try discriminate Hp; try (destruct k; discriminate Hp).
-    + destruct k as [k|k|]; try discriminate Hp; try (destruct k; discriminate Hp).
-      (* [3; dt] *)
-      destruct ((a <? 0) || (60 * base c <? a)) eqn:G; [discriminate Hp|].
-      apply orb_false_elim in G. destruct G as [G _]. apply Z.ltb_ge in G.
-      destruct (advance adv_fuel c (now s + a) s) as [[s2 ds]|] eqn:A; [|discriminate Hp].
-      injection Hp as <- <-.
-      assert (Hi : Inv c s m) by (unfold Inv; auto).
-      assert (Hle : now s <= now s + a) by lia.
-      destruct (advance_sim _ _ _ _ _ _ _ Hi Hle A) as (m' & Hm & Hinv).
-      exists m'. split; [|exact Hinv]. unfold mon_step. rewrite split_pobs_pobs, Hm. reflexivity.
-    + destruct k as [k|k|]; try discriminate Hp; try (destruct k; discriminate Hp).
-      (* [2; m] *)
-      injection Hp as <- <-. unfold mon_step. rewrite split_pobs_pobs. cbn [mon_dials].
-      eexists. split. reflexivity. unfold Inv. cbn. repeat split; auto.
-  - exfalso. destruct k as [|k|k]; try discriminate Hp.
-    destruct k as [k|k|]; try discriminate Hp; destruct k as [k|k|]; try discriminate Hp; try (destruct k; discriminate Hp).
+  intros c s m op s' o (I1 & I2 & I3 & I5 & I4) Hp.
+  unfold pstep in Hp. unfold mon_step.
+  destruct (pop_of op) as [[md|dt| | | |h]|]; [..|discriminate Hp].
+  - (* [2; m] *)
+    injection Hp as <- <-. rewrite split_pobs_pobs. cbn [mon_dials].
+    eexists. split. reflexivity. unfold Inv. cbn. repeat split; auto.
+  - (* [3; dt] *)
+    destruct ((dt <? 0) || (60 * base c <? dt)) eqn:G; [discriminate Hp|].
+    apply orb_false_elim in G. destruct G as [G _]. apply Z.ltb_ge in G.
+    destruct (advance adv_fuel c (now s + dt) s) as [[s2 ds]|] eqn:A; [|discriminate Hp].
+    injection Hp as <- <-.
+    assert (Hi : Inv c s m) by (unfold Inv; auto).
+    assert (Hle : now s <= now s + dt) by lia.
+    destruct (advance_sim _ _ _ _ _ _ _ Hi Hle A) as (m' & Hm & Hinv).
+    exists m'. split; [|exact Hinv]. rewrite split_pobs_pobs, Hm. reflexivity.
+  - (* [4] *)
+    destruct (ph s) as [|t b|t|] eqn:P; injection Hp as <- <-; rewrite split_pobs_pobs.
+    + rewrite I4. cbn [mon_dials]. eexists. split. reflexivity. unfold Inv. cbn. rewrite ?P. repeat split; auto; discriminate.
+    + destruct I4 as [L B]. rewrite L. cbn [mon_dials]. exists m. split. reflexivity.
+      unfold Inv. rewrite ?P. repeat split; auto.
+    + destruct I4 as (t0 & L & T & N). rewrite L. cbn [mon_dials m_last m_ok m_idx m_fresh m_dials m_delay].
+      rewrite ?L. cbn [negb andb].
+      replace (t0 <=? now s) with true by (symmetry; apply Z.leb_le; exact N).
+      set (m0 := mkm (m_ok m) 0 (Some t0) false (m_dials m) (m_delay m)).
+      exists (mon_after c m0 0 false (now s)). split. reflexivity.
+      apply dial_Inv; auto; discriminate.
+    + rewrite I4. cbn [mon_dials]. eexists. split. reflexivity. unfold Inv. cbn. rewrite ?P. repeat split; auto; discriminate.
+  - (* [5] *)
+    destruct (ph s) as [|t b|t|] eqn:P; injection Hp as <- <-; rewrite split_pobs_pobs; cbn [mon_dials];
+      unfold state_code; cbn [ph]; rewrite ?P.
+    + cbn [Z.eqb]. eexists. split. reflexivity. unfold Inv. cbn. rewrite ?P. repeat split; auto.
+    + destruct I4 as [L B]. destruct (sticky s); cbn [Z.eqb Pos.eqb]; exists m; (split; [reflexivity|]);
+        unfold Inv; rewrite ?P; repeat split; auto.
+    + cbn [Z.eqb Pos.eqb]. exists m. split. reflexivity. unfold Inv. rewrite ?P. repeat split; auto.
+    + cbn [Z.eqb]. eexists. split. reflexivity. unfold Inv. cbn. repeat split; auto.
+  - (* [6] *)
+    destruct (ph s) as [|t b|t|] eqn:P; injection Hp as <- <-; rewrite split_pobs_pobs.
+    + cbn [mon_dials]. rewrite I4. cbn [negb andb].
+      exists (mon_after c m (m_idx m) (m_fresh m) (now s)). split. reflexivity.
+      replace s with (mkp (now s) (okmode s) (idx s) PIdle (fdelay s) (sticky s)) at 1
+        by (destruct s; cbn in P; rewrite P; reflexivity).
+      rewrite <- I2. apply dial_Inv; auto.
+    + cbn [mon_dials]. exists m. split. reflexivity. unfold Inv. rewrite ?P. repeat split; auto; try apply I4.
+    + cbn [mon_dials]. exists m. split. reflexivity. unfold Inv. rewrite ?P. repeat split; auto; try apply I4.
+    + cbn [mon_dials]. exists m. split. reflexivity. unfold Inv. rewrite ?P. repeat split; auto; try apply I4.
+  - (* [7; h] *)
+    destruct (h <? 0); [discriminate Hp|]. injection Hp as <- <-.
+    rewrite split_pobs_pobs. cbn [mon_dials].
+    eexists. split. reflexivity. unfold Inv. cbn. repeat split; auto.
 Qed.
 
 (* ---------- every model trace satisfies the clauses ---------- *)
@@ -755,13 +803,18 @@ Proof.
     + cbn in Ho, Hi. cbn [nth_error]. apply (IH model impl Hrest i op n rb d Ho Hp Hn Hi).
 Qed.
 
-(* ResetConnectBackoff: the index is 0 afterwards, and a pending wait is cut short (the
-   sub-channel dials at once) *)
-Lemma reset_idx : forall c s s' o, pstep c s [4] = Some (s', o) -> idx s' = 0.
+(* ResetConnectBackoff: the index is 0 afterwards (it is skipped while a dial is in
+   flight), and a pending wait is cut short (the sub-channel dials at once) *)
+Lemma reset_idx : forall c s s' o, (forall t b, ph s <> PConnecting t b) ->
+  pstep c s [4] = Some (s', o) -> idx s' = 0.
 Proof.
-  intros c s s' o H. cbn in H. destruct (ph s); injection H as <- _; try reflexivity.
-  unfold dial. cbn. destruct (okmode s); reflexivity.
+  intros c s s' o Hc H. cbn in H. destruct (ph s) as [|t b|t|] eqn:P; injection H as <- _; try reflexivity.
+  - exfalso. eapply Hc. reflexivity.
+  - unfold dial. cbn. destruct (okmode s); [reflexivity|]. destruct (fdelay s <=? 0); reflexivity.
 Qed.
-Lemma reset_dials_now : forall c s t, ph s = PBackoff t -> okmode s = false ->
-  pstep c s [4] = Some (mkp (now s) false 0 (PBackoff (now s + bo c 0)), [1; now s; 3]).
-Proof. intros c s t H Hm. cbn. rewrite H. unfold dial. cbn. rewrite Hm. reflexivity. Qed.
+Lemma reset_dials_now : forall c s t, ph s = PBackoff t -> okmode s = false -> fdelay s <= 0 ->
+  pstep c s [4] = Some (mkp (now s) false 0 (PBackoff (now s + bo c 0)) (fdelay s) true, [1; now s; 3]).
+Proof.
+  intros c s t H Hm Hd. cbn. rewrite H. unfold dial. cbn. rewrite Hm.
+  replace (fdelay s <=? 0) with true by (symmetry; apply Z.leb_le; exact Hd). reflexivity.
+Qed.
